@@ -44,6 +44,18 @@ template struct Rob<DefTag<SimpleM>, &frg::qs_agent<SimpleM>::_qs_deferred>;
 
 #endif
 
+#ifndef SIM_NO_PRIVATE_PEEK
+// write access to the two period counters of a FRESH domain ("aged" domain: as if ~2^32 grace periods had passed)
+template <class Mx> struct CtrTag { using type = std::atomic<uint64_t> frg::qs_domain<Mx>::*; friend type get(CtrTag); };
+template <class Mx> struct DesTag { using type = std::atomic<uint64_t> frg::qs_domain<Mx>::*; friend type get(DesTag); };
+template struct Rob<CtrTag<SimMutex>, &frg::qs_domain<SimMutex>::_qs_counter>;
+template struct Rob<CtrTag<TicketM>, &frg::qs_domain<TicketM>::_qs_counter>;
+template struct Rob<CtrTag<SimpleM>, &frg::qs_domain<SimpleM>::_qs_counter>;
+template struct Rob<DesTag<SimMutex>, &frg::qs_domain<SimMutex>::_desired_qs_counter>;
+template struct Rob<DesTag<TicketM>, &frg::qs_domain<TicketM>::_desired_qs_counter>;
+template struct Rob<DesTag<SimpleM>, &frg::qs_domain<SimpleM>::_desired_qs_counter>;
+#endif
+
 #define DISPATCH(mt, EXPR) \
 	switch (mt) { \
 	case MT_SIM: { using M = SimMutex; EXPR; break; } \
@@ -62,6 +74,19 @@ void sut_qs(int mt, void *ag) { DISPATCH(mt, static_cast<frg::qs_agent<M> *>(ag)
 void sut_barrier(int mt, void *ag) { DISPATCH(mt, static_cast<frg::qs_agent<M> *>(ag)->quiescent_barrier()); }
 void sut_await(int mt, void *ag, void *node) { DISPATCH(mt, static_cast<frg::qs_agent<M> *>(ag)->await_barrier(static_cast<frg::qs_node *>(node))); }
 void sut_run(int mt, void *ag) { DISPATCH(mt, static_cast<frg::qs_agent<M> *>(ag)->run()); }
+int sut_domain_age(int mt, void *dom, uint64_t periods) { // only on a fresh domain with no agent yet; returns 0 if unsupported
+#ifndef SIM_NO_PRIVATE_PEEK
+	DISPATCH(mt, {
+		auto d = static_cast<frg::qs_domain<M> *>(dom);
+		if ((d->*get(CtrTag<M>())).load(std::memory_order_relaxed) != 1 || (d->*get(DesTag<M>())).load(std::memory_order_relaxed) != 0) return 0; // not the expected fresh state
+		(d->*get(CtrTag<M>())).store(periods, std::memory_order_relaxed);
+		(d->*get(DesTag<M>())).store(periods - 1, std::memory_order_relaxed);
+	});
+	return 1;
+#else
+	(void)mt; (void)dom; (void)periods; return 0;
+#endif
+}
 void sut_node_construct(void *mem, void (*cb)(void *)) {
 	auto n = new (mem) frg::qs_node();
 	n->on_grace_period = reinterpret_cast<void (*)(frg::qs_node *)>(cb);
